@@ -152,6 +152,14 @@ class TypeEngine:
                 self._analyse(f)
         self.rounds = rounds
 
+    def _scratch_env(self, key):
+        """the environment in which a module-level / class-level expression is typed (its comprehension variables live there):
+        one per expression for the whole fixpoint, so that a second evaluation changes nothing"""
+        envs = self.__dict__.setdefault("_scratch", {}) if hasattr(self, "__dict__") else None
+        if envs is None:
+            return {}
+        return envs.setdefault(key, {})
+
     def _join(self, store, key, atoms):
         cur = store.setdefault(key, set())
         if not set(atoms) <= cur:
@@ -170,7 +178,7 @@ class TypeEngine:
             for v in values:
                 if v is None:
                     continue
-                t = self._expr(v, fake, {})
+                t = self._expr(v, fake, self._scratch_env(('globals', m.name, name)))
                 self._join(self.global_types, f"{m.name}.{name}", t)
 
     def _analyse(self, f):
@@ -576,7 +584,7 @@ class TypeEngine:
                     m = cls.methods[n.attr]
                     out.add(("bound", m.qual, cls.qual) if m.is_classmethod else ("func", m.qual))
                 elif cls is not None and n.attr in cls.class_attrs:
-                    out |= self._expr(cls.class_attrs[n.attr], _ModuleScope(cls.module), {})
+                    out |= self._expr(cls.class_attrs[n.attr], _ModuleScope(cls.module), self._scratch_env(('classattr', cls.qual, n.attr)))
                 elif n.attr == "__name__":
                     out.add(PRIM)
                 else:
@@ -638,7 +646,7 @@ class TypeEngine:
         if ft:
             return set(ft)
         if attr in cls.class_attrs:
-            return self._expr(cls.class_attrs[attr], _ModuleScope(cls.module), {})
+            return self._expr(cls.class_attrs[attr], _ModuleScope(cls.module), self._scratch_env(('classattr', cls.qual, attr)))
         if attr == "__class__":
             return {("cls", cls.qual)}
         if attr == "__dict__":
